@@ -291,6 +291,20 @@ func (agc *AggregatorContext) PrepareRoundEndBlock(block uint64) (newRoundFeeder
 }
 
 // SetParams sets the params field of aggregatorContext“
+// CloseRoundIfStored closes the round tracked for feederID when the price store has already moved
+// past its round id (storedNextRoundID is the next round id of the feeder's token in the store).
+// It is used when the context is rebuilt after a restart.
+func (agc *AggregatorContext) CloseRoundIfStored(feederID, storedNextRoundID uint64) {
+	round := agc.rounds[feederID]
+	if round == nil || round.status != roundStatusOpen {
+		return
+	}
+	if storedNextRoundID > round.nextRoundID {
+		round.status = roundStatusClosed
+		delete(agc.aggregators, feederID)
+	}
+}
+
 func (agc *AggregatorContext) SetParams(p *types.Params) {
 	agc.params = p
 }
